@@ -265,7 +265,7 @@ class Gen:
         The operands of ALL atoms are chosen (and, when needed, loaded) before the first jump, so that every register
         read later is definitely assigned."""
         rng = self.rng
-        shape = rng.choice(('atom', 'atom', 'and', 'or', 'and3', 'mixed')) if self.level >= 2 else 'atom'
+        shape = rng.choice(('atom', 'atom', 'and', 'or', 'and3', 'mixed')) if self.level >= 1 else 'atom'
         n = {'atom': 1, 'and': 2, 'or': 2, 'and3': 3, 'mixed': 3}[shape]
         atoms = [self.cond_atom(live) for _ in range(n)]
         if shape == 'atom':
@@ -310,14 +310,20 @@ class Gen:
             if depth >= (3 if self.level >= 2 else self.level) or r < 0.55:
                 self.stmt_simple(live)
             elif r < 0.72:
+                if depth >= 1:
+                    self.feat.add('nested')
                 ft = self.if_stmt(live, depth, in_loop)
             elif r < 0.84:
                 if self.free_counters and self.want('loop'):
+                    if depth >= 1:
+                        self.feat.add('nested')
                     ft = self.loop_stmt(live, depth)
                 else:
                     self.stmt_simple(live)
             elif r < 0.93:
                 if self.want('switch'):
+                    if depth >= 1:
+                        self.feat.add('nested')
                     ft = self.switch_stmt(live, depth, in_loop)
                 else:
                     self.stmt_simple(live)
@@ -504,6 +510,9 @@ def arg_tuples(rng, params, n_boundary=22, n_random=10):
             t.append(v)
         add(tuple(t))
     add(tuple(0 for _ in params))
+    # equal arguments (the boundary of every comparison between two registers)
+    for v in (1, -1, 7, 0x7FFFFFFF, -0x80000000, rng.choice(I_BOUND)):
+        add(tuple(v for _ in params))
     return out
 
 
